@@ -111,6 +111,19 @@ func dealCommitData(node *raftconn.RaftNode, client metaclient.MetaClient, stora
 	} else if dataWrapper.DataType == raftlog.ClearEntryLog {
 		bytes := dataWrapper.Data
 		index := encoding.UnmarshalUint64(bytes)
+		// The index comes from the leader's snapshot (its own last flush). This member replays its log from its
+		// own snapshot index after a restart, so it must keep every entry it has not flushed itself.
+		sp, errSp := node.Store.Snapshot()
+		if errSp != nil {
+			logger.GetLogger().Error("get snapshot err when dealCommitData", zap.Error(errSp), zap.String("db", database), zap.Uint32("pt", ptId))
+			return
+		}
+		if sp.Metadata.Index < index {
+			index = sp.Metadata.Index
+		}
+		if index == 0 {
+			return
+		}
 		err := node.Store.DeleteBefore(index)
 		if err != nil {
 			logger.GetLogger().Error("deleting entryLog err when dealCommitData", zap.Error(err), zap.String("db", database), zap.Uint32("pt", ptId))
